@@ -323,6 +323,97 @@ def audit_programs():
         yield ("sem-audit", "G1-name|" + name[:20], HEADER + "def %s(%s: int) -> int:\n    %s = %s + 1\n    return %s\n\nmodel M_%s:\n    %s: int\n" % (name, name, name, name, name, name[:8], name))
 
 
+# ---------------------------------------------------------------------------------- const-evaluated index / slice lattice
+
+I64MAX = "9223372036854775807"
+I64MIN = "(-9223372036854775807 - 1)"
+CONST_CONTAINERS = [
+    ("str", ['""', '"a"', '"ab"', '"hello"', '"h\u00e9ll\U0001f600"'], [0, 1, 2, 5, 5], "str"),
+    ("bytes", ['b""', 'b"a"', 'b"ab"', 'b"hello"'], [0, 1, 2, 5], "bytes"),
+    ("list", ["[]", "[1]", "[1, 2]", "[1, 2, 3, 4, 5]"], [0, 1, 2, 5], "FrozenList[int]"),
+    ("tuple", ["()", "(1,)", "(1, 2)", "(1, 2, 3, 4, 5)"], [0, 1, 2, 5], None),
+]
+
+
+def bound_values(n):
+    """the bound lattice for a container of length n (None = omitted)"""
+    vals = [None, "0", "1", str(n - 1), str(n), str(n + 1), "-1", str(-n), str(-n - 1), I64MAX, I64MIN]
+    out = []
+    for v in vals:
+        if v not in out:
+            out.append(v)
+    return out
+
+
+STEP_VALUES = [None, "1", "-1", "2", "-2", "0", I64MAX, I64MIN]
+
+
+def slice_text(a, b, st):
+    t = "%s:%s" % (a or "", b or "")
+    if st is not None:
+        t += ":" + st
+    return t
+
+
+def const_slice_programs(quick):
+    """index and every slice shape over const strings / bytes / lists / tuples of length 0, 1, 2, 5: bounds and steps from the
+    lattice, written as literals, as negated / parenthesised literals and as references to int consts; in const initialisers,
+    parameter defaults, field defaults and function bodies; nested (slice of slice, index of slice).
+    One program per (container, start, step): all end bounds as separate consts.  quick: steps {omitted, 1} for every
+    (start, end) pair (this includes every reversed-bounds combination), the other steps on a diagonal."""
+    for kind, lits, lens, ann in CONST_CONTAINERS:
+        for lit, n in zip(lits, lens):
+            decl = "pub const S%s = %s\n" % ((": " + ann) if ann else "", lit)
+            bounds = bound_values(n)
+            for ia, a in enumerate(bounds):
+                for ist, st in enumerate(STEP_VALUES):
+                    if quick and st not in (None, "1") and (ia + ist) % 4 != 0:
+                        continue
+                    ends = bounds
+                    label = "%s/%s|[%s:*:%s]" % (kind, lit, a, st)
+                    # 1. const initialisers
+                    body = "".join("pub const T%d = S[%s]\n" % (j, slice_text(a, b, st)) for j, b in enumerate(ends))
+                    yield ("sem-const-slice", "const|" + label, decl + body + "\ndef main() -> None:\n    println(T0)\n")
+                    # 2. function bodies (run-time path of the emitter) and parameter / field defaults
+                    if not quick or (st in (None, "1") and n in (2, 5)):
+                        body = "".join("    t%d = S[%s]\n" % (j, slice_text(a, b, st)) for j, b in enumerate(ends))
+                        yield ("sem-const-slice", "body|" + label, decl + "def main() -> None:\n" + body + "    println(t0)\n")
+                        local = "".join("    t%d = s[%s]\n" % (j, slice_text(a, b, st)) for j, b in enumerate(ends))
+                        yield ("sem-const-slice", "local|" + label, "def main() -> None:\n    s = %s\n%s    println(t0)\n" % (lit, local))
+                    if st in (None, "1", "-1"):
+                        b = ends[(ia * 3 + 1) % len(ends)]
+                        yield ("sem-const-slice", "default|" + label, decl + "def q(x: %s = S[%s]) -> None:\n    pass\n\nmodel M:\n    f: %s = S[%s]\n" % (ann or "int", slice_text(a, b, st), ann or "int", slice_text(a, b, st)))
+            # indices
+            idx = "".join("pub const X%d = S[%s]\n" % (j, b) for j, b in enumerate(bounds) if b is not None)
+            yield ("sem-const-slice", "const-index|%s/%s" % (kind, lit), decl + idx)
+            for j, b in enumerate(bounds):
+                if b is not None:
+                    yield ("sem-const-slice", "const-index1|%s/%s|%s" % (kind, lit, b), decl + "pub const X = S[%s]\n\ndef main() -> None:\n    println(X)\n    y = S[%s]\n" % (b, b))
+            # bounds written as negated / parenthesised literals and as const references
+            refs = "const I0: int = 0\nconst I1: int = 1\nconst I3: int = 3\nconst IN: int = -1\nconst IL: int = %d\nconst IB: int = %s\nconst IS: int = %s\nconst IZ: int = 1 - 1\n" % (n, I64MAX, I64MIN)
+            forms = ["I3:I1", "I1:I3", "IN:I0", "IL:I0", "I0:IL", "IB:IS", "IS:IB", "I3:I1:I1", "I1:I3:IN", "I0:IL:IZ", "I3:", ":I1", "::IN", "::IZ", "I3", "IN", "IL", "IB", "IS",
+                     "-(1):-(3)", "- -3:- -1", "(3):(1)", "-0:-0", "+3:+1" , "3:1:True", "True:False", "1.5:2", "\"a\":1", "None:None", "I3:I1:None", "3 - 1:1 + 1", "2 * 2:1", "1 // 0:1", "I3 if True else I1:1"]
+            body = "".join("pub const R%d = S[%s]\n" % (j, f) for j, f in enumerate(forms))
+            yield ("sem-const-slice", "const-refs-all|%s/%s" % (kind, lit), decl + refs + body)
+            for f in forms:
+                if quick and n != 5:
+                    continue
+                yield ("sem-const-slice", "const-refs|%s/%s|%s" % (kind, lit, f), decl + refs + "pub const R = S[%s]\n\ndef main() -> None:\n    println(R)\n    r = S[%s]\n" % (f, f))
+            # nested: slice of slice, index of slice, slice of index
+            nest = ["S[1:4][0:2]", "S[1:4][2:0]", "S[3:1][0:1]", "S[3:1][0]", "S[1:4][0]", "S[1:4][-1]", "S[1:4][5]", "S[::-1][3:1]", "S[::-1][1:3]", "S[::2][::2]", "S[4:0:-1][3:1]",
+                    "S[0][0:1]", "S[0][1:0]", "S[-1][::-1]", "S[:][:][:]", "S[1:][1:][1:][1:][1:][1:]", "S[3:1][3:1][3:1]", "S[%s:][:%s]" % (I64MAX, I64MIN), "(S + S)[%d:1]" % (n + 1), "(S * 2)[3:1]"]
+            body = "".join("pub const N%d = %s\n" % (j, e) for j, e in enumerate(nest))
+            yield ("sem-const-slice", "const-nested-all|%s/%s" % (kind, lit), decl + body)
+            for e in nest:
+                if quick and n != 5:
+                    continue
+                yield ("sem-const-slice", "const-nested|%s/%s|%s" % (kind, lit, e), decl + "pub const N = %s\n\ndef main() -> None:\n    println(N)\n    m = %s\n" % (e, e))
+    # literal receivers (no named const) in const position
+    for lit in ['"hello"', 'b"hello"', "[1, 2, 3, 4, 5]", "(1, 2, 3, 4, 5)", 'f"hello"', '"a" + "bcde"', '"ab" * 3']:
+        for sl in ["3:1", "-4:0", "1:3", "5:0", "0:5", "6:7", "-9:-8", "3:1:1", "1:3:-1", "::0", "::-1", "%s:%s" % (I64MAX, I64MIN), "%s:%s" % (I64MIN, I64MAX), "3", "5", "-6"]:
+            yield ("sem-const-slice", "const-literal|%s[%s]" % (lit, sl), "pub const T = %s[%s]\n\ndef main() -> None:\n    println(T)\n" % (lit, sl))
+
+
 def all_programs():
     for gen in (audit_programs, position_programs, operator_programs, listed_programs, typed_value_programs):
         for item in gen():
@@ -332,7 +423,7 @@ def all_programs():
 def stream(rng, quick):
     """(group, label, source).  thorough: everything.  quick: all of the small groups and a seeded sample of the two big
     cross products, in which every type and every usage occurs at least a fixed number of times."""
-    items = list(all_programs())
+    items = list(all_programs()) + list(const_slice_programs(quick))
     if not quick:
         return items
     big = [x for x in items if x[0] in ("sem-type-use", "sem-operators", "sem-unary")]
